@@ -36,6 +36,7 @@ fn gens(tier: Tier) -> Vec<Gen> {
         Gen { name: "alphabet-connect", count: strings_upto(tier.pick(4, 6)), exhaustive: true, run: run_alpha_connect },
         Gen { name: "mutation", count: tier.pick(20_000, 1_500_000), exhaustive: false, run: run_mutation },
         Gen { name: "endless", count: tier.pick(400, 6_000), exhaustive: false, run: run_endless },
+        Gen { name: "many-interim-heads", count: (4 * 2 * 2) as u64, exhaustive: true, run: run_many_interim },
         Gen { name: "many-fields", count: (6 * 3 * 2) as u64, exhaustive: true, run: run_many_fields },
         Gen { name: "blowup", count: tier.pick(600, 20_000), exhaustive: false, run: run_blowup },
     ]
@@ -551,4 +552,24 @@ fn run_many_fields(ctx: &mut Ctx, _rng: &mut Rng, index: u64) {
     let steps = vec![Step::Data(wire.clone())];
     let input = wire[..200].to_vec();
     drive(ctx, Hostile { steps, entry: if tunnel { Entry::Tunnel } else { Entry::Direct }, api: (index % N_API as u64) as u8, endless_bound: None, max_headers: Some(limit), label: format!("{n} distinct header fields under max_headers={limit}"), input, wellformed: false });
+}
+
+/// thousands of (tiny, valid) interim 1xx heads in a row, possibly followed by a final response:
+/// finite input, so the call returns - with bounded stack as well as bounded heap
+fn run_many_interim(ctx: &mut Ctx, _rng: &mut Rng, index: u64) {
+    if crate::framework::small_mode() {
+        ctx.gray();
+        return;
+    }
+    let n = [100usize, 2_000, 20_000, 100_000][(index % 4) as usize];
+    let code = [100u16, 103][((index / 4) % 2) as usize];
+    let tunnel = (index / 8) % 2 == 1;
+    let mut wire = Vec::with_capacity(n * 30 + 64);
+    for _ in 0..n {
+        wire.extend_from_slice(format!("HTTP/1.1 {code} Interim\r\n\r\n").as_bytes());
+    }
+    wire.extend_from_slice(if tunnel { b"HTTP/1.1 200 Connection established\r\n\r\n" } else { b"HTTP/1.1 200 OK\r\nContent-Length: 2\r\n\r\nok" });
+    ctx.count("runs_of_interim_heads", 1);
+    let input = wire[..120].to_vec();
+    drive(ctx, Hostile { steps: vec![Step::Data(wire)], entry: if tunnel { Entry::Tunnel } else { Entry::Direct }, api: (index % N_API as u64) as u8, endless_bound: None, max_headers: None, label: format!("{n} interim {code} heads in a row"), input, wellformed: false });
 }
